@@ -78,7 +78,26 @@ type lookupCfg struct {
 	// universe exists (the ghosts of a lying world are added later; their
 	// identities are simnet.MakeID(0xdead, i)); its result replaces Key. Lets a
 	// scenario look up a key that is the identity of a member of the universe.
-	KeyFor     func(u *simnet.Universe) string
+	KeyFor func(u *simnet.Universe) string
+	// DialOK (optional hook, nil = a dial succeeds whenever the peer's scripted
+	// behaviour does not say DialFail): called on the simulator goroutine at the
+	// moment a parked dial to a peer whose behaviour allows it is released;
+	// false makes the dial fail (a host that reaches peers at addresses only).
+	DialOK func(h *H1, who peer.ID) bool
+	// TickBudget (optional, 0 = unbounded): upper bound on the virtual time the
+	// drawn "tick" advances add up to during one lookup (the draws stay the same).
+	TickBudget time.Duration
+	// ReqErr (optional hook, nil = errReqFailed): called on the simulator
+	// goroutine at the moment a parked request to a peer whose scripted
+	// behaviour fails requests is released; returns the error the request
+	// fails with (the SHAPE of a request failure as an input).
+	ReqErr func(to peer.ID) error
+	// Opts (optional hook, nil = none): further options of the node under
+	// test, appended after the ones buildLookupWorld chooses; called once
+	// before the node is built. Built (optional hook): called once right after
+	// the node was built, before the routing table is seeded.
+	Opts       func() []dht.Option
+	Built      func(h *H1)
 	CancelAt   int // step at which the context is cancelled (0 = never)
 	FaultLevel int // 0 none, 1 light, 2 heavy
 	Lies       bool
@@ -170,9 +189,15 @@ func buildLookupWorld(s *sim.Sim, c *lookupCfg) (*H1, error) {
 	} else if c.AddrFilter {
 		opts = append(opts, dht.QueryFilter(func(_ any, ai peer.AddrInfo) bool { return hasGoodAddr(ai.Addrs) }))
 	}
+	if c.Opts != nil {
+		opts = append(opts, c.Opts()...)
+	}
 	h, err := newH1(s, u, c.K, c.Alpha, c.Beta, opts...)
 	if err != nil {
 		return nil, err
+	}
+	if c.Built != nil {
+		c.Built(h)
 	}
 
 	// ghosts: peers that exist only in lies
@@ -343,7 +368,7 @@ func (o *lookupObs) lookupActions() []sim.Action {
 			who := p.Data.(peer.ID)
 			acts = append(acts, sim.Action{ID: p.ID, Do: func() {
 				b := h.Beh[who]
-				if b == nil || b.DialFail {
+				if b == nil || b.DialFail || (o.cfg.DialOK != nil && !o.cfg.DialOK(h, who)) {
 					s.Count("fault_dial_fail")
 					s.Release(p, simhost.ErrDialFailed)
 					o.deliveries = append(o.deliveries, delivery{Step: s.Steps, Peer: who, Kind: "dial-fail"})
@@ -359,7 +384,11 @@ func (o *lookupObs) lookupActions() []sim.Action {
 				x := h.U.ByID(r.To)
 				if b == nil || x == nil || b.ReqMode == reqError {
 					s.Count("fault_rpc_error")
-					s.Release(p, simnet.Reply{Err: errReqFailed})
+					reqErr := errReqFailed
+					if o.cfg.ReqErr != nil {
+						reqErr = o.cfg.ReqErr(r.To)
+					}
+					s.Release(p, simnet.Reply{Err: reqErr})
 					o.deliveries = append(o.deliveries, delivery{Step: s.Steps, Peer: r.To, Kind: "rpc-err", RPC: r})
 					return
 				}
@@ -492,6 +521,7 @@ func runLookup(s *sim.Sim, c lookupCfg) *lookupObs {
 	})
 	s.Quiesce()
 	idle := 0
+	var ticked time.Duration // virtual time advanced by drawn ticks (TickBudget)
 	for {
 		drain() // events published during step n are stamped n
 		if !s.Step() || o.op.Done {
@@ -507,8 +537,14 @@ func runLookup(s *sim.Sim, c lookupCfg) *lookupObs {
 		}
 		if s.Chance("tick", 1, 8) {
 			d := time.Duration(1+s.Draw("tick-ms", 2000)) * time.Millisecond
-			s.Sleep(d)
-			s.Count("time_advance")
+			if c.TickBudget > 0 && ticked+d > c.TickBudget {
+				d = c.TickBudget - ticked // the rest of the budget (possibly nothing)
+			}
+			if d > 0 {
+				ticked += d
+				s.Sleep(d)
+				s.Count("time_advance")
+			}
 		}
 		acts := o.lookupActions()
 		if c.LazyEvents && len(evCh) > 0 {
